@@ -34,7 +34,7 @@ PLAN = {
     "C07": (["core", "io"], [("pegsim", []), ("pegsim-io", [])]),
     "C08": (["core", "cov"], [("pegsim", []), ("pegsim-cov", [])]),
     "C12": (["tree"], [("pegsim-tree", [])]),
-    "C13": (["core"], [("pegsim", [])]),
+    "C13": (["core", "io"], [("pegsim", []), ("pegsim-io", [])]),
     "C18": (["core"], [("pegsim", [])]),
 }
 THOROUGH_EXTRA = {  # chunk size 1 lives in its own binary
